@@ -55,6 +55,35 @@ Theorem C10_no_second_grant :
   snd (step (nd d2) (ReqVote (term (nd d2)) c lli llt)) = [term (nd d2); 0].
 Proof. exact no_second_grant. Qed.
 
+(* snapshot installs are steps like any other (C10_restart_never_forgets quantifies over them): an
+   accepted install of a snapshot with a higher last-included term logs TermAndVote(lit, None) first
+   -- the node holds NO vote in that term, in memory and in the log alike --, then the installed
+   entries; afterwards the node's log is the snapshot's (when the local log conflicts with it or is
+   shorter; shown on a concrete instance for the conflict case). *)
+Theorem C10_snapshot_install_logs_term_without_vote : forall n lit ents n' w out,
+  step n (InstallSnap lit ents true) = (n', w, out) -> term n < lit ->
+  exists w', w = TermAndVote lit None :: w' /\ term n' = lit /\ voted n' = None
+             /\ (forall e, In e w' -> match e with LogEntryFull _ _ _ | LogTruncate _ => True | _ => False end).
+Proof.
+  intros n lit ents n' w out H Hlt. cbn [step negb] in H.
+  apply N.ltb_lt in Hlt. rewrite Hlt in H. cbn [term voted log role votes] in H.
+  destruct (append_entries (log n) ents) as [l1 w2] eqn:E2.
+  assert (OL: forall e, In e w2 -> match e with LogEntryFull _ _ _ | LogTruncate _ => True | _ => False end).
+  { intros e He. apply (AE_only_log ents (log n)). rewrite E2. exact He. }
+  destruct (llen ents <? llen l1); inversion H; subst; cbn [app term voted];
+    eexists; (split; [reflexivity|]); (split; [reflexivity|]); (split; [reflexivity|]).
+  - intros e He. apply in_app_or in He as [He|[<-|[]]]; [apply OL; exact He|exact I].
+  - intros e He. rewrite app_nil_r in He. apply OL. exact He.
+Qed.
+
+Example C10_snapshot_install_instance :
+  let n := Node 1 (Some 1) [(1, 1, 101); (2, 1, 102)] FOLLOWER [] in
+  step n (InstallSnap 2 [(1, 1, 101); (2, 2, 202); (3, 2, 203)] true) =
+    (Node 2 None [(1, 1, 101); (2, 2, 202); (3, 2, 203)] FOLLOWER [],
+     [TermAndVote 2 None; LogTruncate 2; LogEntryFull 2 2 202; LogEntryFull 3 2 203], [1])
+  /\ wf_step (InstallSnap 2 [(1, 1, 101); (2, 2, 202); (3, 2, 203)] true).
+Proof. split; [vm_compute; reflexivity|cbn; repeat split]. Qed.
+
 (* the hypotheses are satisfiable by non-trivial states: a fresh node is good, and an
    AppendEntries carrying three consecutive entries after a vote is a well-formed step list *)
 Example C10_hypotheses_satisfiable :
@@ -65,3 +94,4 @@ Proof. split; [exact good_dn0|repeat constructor]. Qed.
 Print Assumptions C10_restart_never_forgets.
 Print Assumptions C10_any_number_of_restarts.
 Print Assumptions C10_no_second_grant.
+Print Assumptions C10_snapshot_install_logs_term_without_vote.
